@@ -598,7 +598,13 @@ Definition rd_input (ts : list tok) : option input :=
 
 (** conv <kind> <payload> : the generic serde path (what every build without [specialized] runs);
     convspec ... : the specialised impls *)
+Definition K_i128 := Eval compute in s2l "i128".
+Definition K_u128 := Eval compute in s2l "u128".
 Definition run_conv (special : bool) (ts : list tok) : list tok :=
+  (* 128-bit integers are not among the specially handled input types, and the library's Serializer leaves serde's default
+     [serialize_i128]/[serialize_u128] in place, which refuses them: an error on every route, whatever the value *)
+  let wide := match ts with [k; _] => str_eqb k K_i128 || str_eqb k K_u128 | _ => false end in
+  if wide then [K_ERR; K_conv_err] else
   match rd_input ts with
   | Some i =>
       match (if special then conv_special i else conv_generic i) with
